@@ -1,6 +1,7 @@
 package props
 
 import (
+	"bytes"
 	"context"
 	"fmt"
 	"runtime"
@@ -25,6 +26,7 @@ func init() {
 			"but may use, clunk, remove or walk from any fid, including one another thread is in the middle of allocating. Schedules are produced by a gate inside the FS: every FS call parks on entry, the controller waits until every other goroutine is parked (goroutine states, no clocks) and then releases one parked call chosen by the PRNG " +
 			"(so lock hand-over, lookup->lock and delete->lock windows are hit deliberately); a second family runs free with random yields. Oracles: (1) overlap monitor inside the FS (two calls in progress on one handle or its file), release monitor; (2) every call returned when all gates are released — otherwise the blocked sites are reported as a deadlock; " +
 			"(3) afterwards the verif hook must report no locked fid and, after Stop, nothing bound or leaked; (4) porcupine v1.3.0 checks the invoke/return history (logical clock) for linearizability against the sequential fid-table model (non-deterministic model where the statement leaves a choice); (5) Go race detector, reports with a frame in sfilesys.go. " +
+			"Two further families: reads of several open files issued through the server's request handler (p9p.SSession), sequentially and from concurrent goroutines, every reply kept untouched until all handlers of the round have returned and then compared with its own file's bytes; and Stop reached through ServeConn's shutdown while operations are still inside the file system (scripts and monitors of C11). " +
 			"non-trivial = >= 2 calls overlapped in time on a shared fid; distinct by hash of the (call, return) order",
 		Assumptions: []string{
 			"the FS gate scheduler interleaves at FS-call granularity; interleavings inside the session's own critical sections are left to the Go scheduler (plus the race detector)",
@@ -32,11 +34,11 @@ func init() {
 			"requires the verif-tagged fid-table hook",
 		},
 		Race:      true,
-		RaceFiles: []string{"sfilesys.go"},
+		RaceFiles: []string{"sfilesys.go", "ssesssion.go", "serveconn.go"},
 		Shards:    shards(8, 16),
 		Timeout:   timeouts(12*time.Minute, 90*time.Minute),
 		MinEvals:  100,
-		Required:  []string{"histories_gated", "histories_free", "porcupine:ok", "overlapping_pairs_on_shared_fid", "locked_fid_scans", "mutex_waits_observed"},
+		Required:  []string{"histories_gated", "histories_free", "porcupine:ok", "overlapping_pairs_on_shared_fid", "locked_fid_scans", "mutex_waits_observed", "held_reply_rounds", "served_shutdown_runs"},
 		Run:       runC14,
 	})
 }
@@ -415,7 +417,7 @@ func genC14Thread(r rnd, t, threads int, hot []p9p.Fid) []fsx.Op {
 		}
 		return p9p.Fid(r.Intn(2*threads + 1))
 	}
-	walks := [][]string{{"d"}, {"a"}, {"d", "g"}, {"d", "e"}, {".."}, {"d", "missing"}, {"missing"}, {"xmissing"}, {"kfail1"}, {"rfail1"}, {"d", "g", "h"}, {"ofail1"}, {"iofail1"}, {"wfail1"}}
+	walks := [][]string{{"d"}, {"a"}, {"d", "g"}, {"d", "e"}, {".."}, {"d", "missing"}, {"missing"}, {"xmissing"}, {"kfail1"}, {"rfail1"}, {"d", "g", "h"}, {"ofail1"}, {"ofailf1"}, {"iofail1"}, {"wfail1"}}
 	n := 2 + r.Intn(6)
 	var ops []fsx.Op
 	created := 0
@@ -467,7 +469,123 @@ func genC14Thread(r rnd, t, threads int, hot []p9p.Fid) []fsx.Op {
 	return ops
 }
 
+// heldRepliesC14: reads of several open files go through the request handler the server
+// uses (p9p.SSession); every reply is kept, untouched, until all handlers of the round have
+// returned - sequentially issued, and issued from concurrent goroutines - and must then
+// still carry its own file's bytes.
+func heldRepliesC14(w *mon.W, no int) {
+	ctx := context.Background()
+	fs := fsx.New()
+	sess := p9p.SFileSys(fs)
+	h := p9p.SSession(sess)
+	w.Case("C14 held replies #%d", no)
+	w.Eval()
+	w.Count("held_reply_rounds", 1)
+	sess.Attach(ctx, 0, p9p.NOFID, "u", "")
+	paths := [][]string{{"a"}, {"b"}, {"d", "e"}, {"d", "f"}, {"d", "g", "h"}}
+	var nodes []*fsx.Node
+	for i, pth := range paths {
+		f := p9p.Fid(10 + i)
+		if qs, err := sess.Walk(ctx, 0, f, pth...); err != nil || len(qs) != len(pth) {
+			w.Inconclusive("walk %v: %v", pth, err)
+			return
+		}
+		if _, _, err := sess.Open(ctx, f, p9p.OREAD); err != nil {
+			w.Inconclusive("open %v: %v", pth, err)
+			return
+		}
+		n := fs.Root
+		for _, name := range pth {
+			n = n.Kids[name]
+		}
+		nodes = append(nodes, n)
+	}
+	type held struct {
+		fid  int
+		off  int64
+		cnt  int
+		data []byte
+		err  error
+	}
+	check := func(hs []held, how string) bool {
+		for _, x := range hs {
+			if x.err != nil {
+				w.Violate("mismatch", "C14:held-reply-error", fmt.Sprintf("%s: Tread on fid %d failed: %v", how, 10+x.fid, x.err), nil)
+				return false
+			}
+			want := make([]byte, x.cnt)
+			want = want[:fsx.FileRead(nodes[x.fid], want, x.off)]
+			if !bytes.Equal(x.data, want) {
+				w.Violate("mismatch", "C14:reply-changed-after-handler-returned", fmt.Sprintf("%s: the Rread returned for fid %d (off %d, count %d) no longer carries that file's bytes once later requests have been handled: differs at byte %d", how, 10+x.fid, x.off, x.cnt, firstDiff(x.data, want)), nil)
+				return false
+			}
+		}
+		return true
+	}
+	one := func(i int) held {
+		off, cnt := int64(w.Rng.Intn(20)), 8+w.Rng.Intn(60)
+		return held{fid: i, off: off, cnt: cnt}
+	}
+	do := func(x *held) {
+		m, err := h.Handle(ctx, p9p.MessageTread{Fid: p9p.Fid(10 + x.fid), Offset: uint64(x.off), Count: uint32(x.cnt)})
+		x.err = err
+		if rr, ok := m.(p9p.MessageRread); ok {
+			x.data = rr.Data // kept as handed out, not copied
+		}
+	}
+	// sequential
+	var hs []held
+	for k := 0; k < 12; k++ {
+		hs = append(hs, one(w.Rng.Intn(len(paths))))
+	}
+	for k := range hs {
+		do(&hs[k])
+	}
+	if !check(hs, "handlers run one after the other") {
+		return
+	}
+	// concurrent
+	hs = hs[:0]
+	for k := 0; k < 16; k++ {
+		hs = append(hs, one(k%len(paths)))
+	}
+	var wg sync.WaitGroup
+	for k := range hs {
+		wg.Add(1)
+		go func(x *held) { defer wg.Done(); do(x) }(&hs[k])
+	}
+	wg.Wait()
+	if !check(hs, "handlers run concurrently") {
+		return
+	}
+	w.NT(fmt.Sprintf("held/%d", no))
+	sess.Stop(nil)
+}
+
 func runC14(w *mon.W) {
+	for i := 0; i < w.Scale(200, 20000); i++ {
+		if w.Mine(i) {
+			heldRepliesC14(w, i)
+		}
+	}
+	// Stop racing with operations still inside the file system: reached through ServeConn's shutdown (C11's machinery)
+	idx := 0
+	for si, script := range c11Scripts() {
+		B, W := c11Record(w, script, si)
+		if B == 0 {
+			continue
+		}
+		for _, beh := range []int{c11SucceedAfterCancel, c11ErrOnCancel} {
+			for _, f := range []c11fault{{"ctx-cancel", W + 1, beh}, {"read-eof", B, beh}, {"write-fail", W + 1, beh}} {
+				idx++
+				if w.Mine(idx) {
+					f := f
+					c11Run(w, script, si, &f)
+					w.Count("served_shutdown_runs", 1)
+				}
+			}
+		}
+	}
 	total := w.Scale(1600, 150000)
 	for i := 0; i < total; i++ {
 		if !w.Mine(i) {
